@@ -21,8 +21,8 @@ META = {
 }
 
 TIERS = {
-    "quick": dict(N2="QN2", C2="QC2", N3="QN3", C3="QC3", RTok="QRTok", RLen=5, RLong="QRLong"),
-    "thorough": dict(N2="TN2", C2="TC2", N3="TN3", C3="TC3", RTok="TRTok", RLen=5, RLong="TRLong"),
+    "quick": dict(N2="QN2", C2="QC2", N3="QN3", C3="QC3", RTok="QRTok", RLen=5, RMid="QRMid", RLong="QRLong"),
+    "thorough": dict(N2="TN2", C2="TC2", N3="TN3", C3="TC3", RTok="TRTok", RLen=5, RMid="TRMid", RLong="TRLong"),
 }
 GEN_CFG = """INIT GInit
 NEXT GNext
@@ -34,13 +34,14 @@ CONSTANTS
   C3 <- {C3}
   RTok <- {RTok}
   RLen = {RLen}
+  RMidTok <- {RMid}
   RLongTok <- {RLong}
   SBits <- AllBits
 INVARIANT Emit
 CHECK_DEADLOCK FALSE
 """
 CHUNK = {"ttl": 8, "make": 16, "via": 8, "range": 8, "srow": 1, "s32cmp": 16, "s32add": 4}
-PARTS = {"ttl": ["ttl1", "ttl2", "ttl3", "ttle"], "via": ["via1", "via2", "via3", "viae"], "range": ["range", "rangelong"]}
+PARTS = {"ttl": ["ttl1", "ttl2", "ttl3", "ttle"], "via": ["via1", "via2", "via3", "viae"], "range": ["range", "rangemid", "rangelong"]}
 STRICT_KINDS = ("make", "range", "srow", "s32add")
 
 
